@@ -234,8 +234,16 @@ fn gen_input(rng: &mut Rng, crlf: bool) -> Vec<u8> {
     let mut input = vec![];
     let nl = rng.range(1, 4);
     for i in 0..nl {
+        // one case in three: multi-byte characters (2 and 3 bytes) and stray continuation / invalid bytes between the
+        // ASCII ones -- the property quantifies over all byte strings, and the iteration after an EMPTY match advances
+        // by one BYTE (as regex::bytes does), also into the middle of a code point (seeded change C19-1-1)
+        let wide = rng.chance(1, 3);
         for _ in 0..rng.range(0, 6) {
-            input.push(*rng.pick(b"aabbc -"));
+            if wide && rng.chance(1, 3) {
+                input.extend_from_slice(*rng.pick(&[&b"\xc3\xa9"[..], &b"\xe2\x82\xac"[..], &b"\xa9"[..], &b"\xff"[..], &b"\xc3"[..]]));
+            } else {
+                input.push(*rng.pick(b"aabbc -"));
+            }
         }
         if i + 1 < nl || rng.chance(3, 4) {
             if crlf && rng.chance(3, 4) {
